@@ -572,6 +572,9 @@ func (c *Compiler) compileMultiVar(node *ast.MultiVar) error {
 		if !found {
 			return c.formatError(fmt.Sprintf("undefined variable %q", name), node.Token().StartPosition)
 		}
+		if resolution.symbol.IsConstant() {
+			return c.formatError(fmt.Sprintf("cannot assign to constant %q", name), node.Token().StartPosition)
+		}
 		symbolIndex := resolution.symbol.Index()
 		switch resolution.scope {
 		case Global:
@@ -902,6 +905,9 @@ func (c *Compiler) compilePostfix(node *ast.Postfix) error {
 	resolution, found := c.current.symbols.Resolve(name)
 	if !found {
 		return c.formatError(fmt.Sprintf("undefined variable %q", name), node.Token().StartPosition)
+	}
+	if resolution.symbol.IsConstant() {
+		return c.formatError(fmt.Sprintf("cannot assign to constant %q", name), node.Token().StartPosition)
 	}
 	symbolIndex := resolution.symbol.Index()
 	// Push the named variable onto the stack
